@@ -58,8 +58,14 @@ let outcome_string ?(members = -1) kind f c s =
   let reader = kind = "lzma2r" || kind = "lzipr" in
   match int_of_nat (Model.outcome_class f c s) with
   | 0 ->
-      let k, e = Model.last_result s in
-      let fin = match int_of_nat k with 1 -> "N" | 2 -> "E" ^ sz e | _ -> "P" in
+      (* the caller of the harness stops at the first end-of-data or error *)
+      let rec first = function
+        | [] -> "P"
+        | Model.RNone :: _ -> "N"
+        | Model.RErr e :: _ -> "E" ^ sz e
+        | _ :: t -> first t
+      in
+      let fin = first s.Model.results in
       if reader then
         Printf.sprintf "OK %s nr=%d sp=%d" fin
           (if members >= 0 then members else int_of_nat s.Model.nr) (* LZIPReaderMT: member_count() *)
